@@ -269,6 +269,120 @@ theorem table_exact {α : Type} [Inhabited α] (m : Mode) (rng : Range.Rng α) (
   · rw [if_pos hc, if_pos ⟨⟨⟨hc.1, hc.2.1⟩, hc.2.2.1⟩, hc.2.2.2⟩]
   · rw [if_neg hc, if_neg (fun h' => hc ⟨h'.1.1.1, h'.1.1.2, h'.1.2, h'.2⟩)]
 
+/-- the table part reader returns what the part declares: display name, reference text, header/totals
+    row counts (schema defaults 1 / 0 when omitted) and the column names in order — under any namespace
+    prefix, with unrelated attributes and child elements (an `autoFilter` carrying its own `ref`) around -/
+theorem table_part_exact (t : TableDecl) (ht : t.Ok) :
+    readTablePart (renderTablePart t) {} [] = .ok (⟨t.name, renderRef2 t.rect, t.h, false, t.t⟩, t.cols) :=
+  readTablePart_decl t ht
+
+/-- where a table relationship of a sheet in folder `root/dir` points: `../tables/t.xml` resolves against
+    `root`, an absolute part name `/xl/tables/t.xml` is the archive entry `xl/tables/t.xml` -/
+theorem table_target_resolution (root dir p : Bytes) (hd : ∀ b ∈ dir, b ≠ 47) :
+    tableLocation (root ++ 47 :: dir) (46 :: 46 :: 47 :: p) = .ok (some (root ++ 47 :: p)) ∧
+    tableLocation (root ++ 47 :: dir) (47 :: p) = .ok (some p) := by
+  rw [tableLocation_resolve root dir _ hd, tableLocation_resolve root dir _ hd]
+  exact ⟨by simp [resolveTarget], by simp [resolveTarget]⟩
+
+/-- `read_table_metadata` over the workbook: `Xlsx::tables` holds exactly the declared tables — in sheet
+    order, then in the order of the sheet's table relationships —, each with its declared name, the name of
+    the sheet that declares it, its column names, and as dimensions the reference minus header and totals
+    rows; relationships of other types are ignored, relative and absolute targets are followed -/
+theorem table_metadata_exact (m : Mode) (parts : List (Bytes × List Ev)) :
+    ∀ (sheets : List SheetTablesDecl), (∀ s ∈ sheets, s.Ok parts) →
+      readTableMetadata m parts (sheets.map (fun s => (s.name, s.path))) = .ok (sheets.flatMap (·.entries))
+  | [], _ => rfl
+  | s :: rest, h => by
+    have ih := table_metadata_exact m parts rest (fun x hx => h x (List.mem_cons_of_mem _ hx))
+    obtain ⟨hd, hf, hrels, htabs⟩ := h s (List.mem_cons_self ..)
+    have hpath := relsPathOf_file (s.root ++ 47 :: s.dir) s.file hf
+    simp only [List.map_cons, readTableMetadata, SheetTablesDecl.path, hpath, List.flatMap_cons]
+    cases hr : s.rels with
+    | none =>
+      rw [hr] at hrels
+      have hnone : findPart parts ((s.root ++ 47 :: s.dir) ++ [47, 95, 114, 101, 108, 115] ++ (47 :: s.file) ++
+          [46, 114, 101, 108, 115]) = none := hrels.1
+      simp only [hnone, SheetTablesDecl.entries, hrels.2, List.map_nil, List.nil_append]
+      exact ih
+    | some ra =>
+      obtain ⟨rootAttrs, rs⟩ := ra
+      rw [hr] at hrels
+      obtain ⟨hfind, hok, hlocs⟩ := hrels
+      have hsome : findPart parts ((s.root ++ 47 :: s.dir) ++ [47, 95, 114, 101, 108, 115] ++ (47 :: s.file) ++
+          [46, 114, 101, 108, 115]) = some (renderSheetRels rootAttrs rs) := hfind
+      have hskip : localName nRelationships ≠ nRelationship := by decide
+      have hlocations : tableLocations (s.root ++ 47 :: s.dir) (renderSheetRels rootAttrs rs) =
+          .ok (s.tables.map (·.1)) := by
+        unfold renderSheetRels
+        simp only [tableLocations, hskip, if_false]
+        rw [tableLocations_decl s.root s.dir hd rootAttrs rs hok, hlocs]
+      simp only [hsome, hlocations, readTables_decl m parts s.name s.tables htabs]
+      have ih' : readTableMetadata m parts
+          (List.map (fun s => (s.name, s.root ++ 47 :: s.dir ++ 47 :: s.file)) rest) =
+          .ok (rest.flatMap (·.entries)) := ih
+      rw [ih']
+      rfl
+
+/-- the accessors over the loaded list: `table_names` lists the declared names in that order,
+    `table_names_in_sheet` those of one sheet, and a table is found under its name with the sheet that
+    declares it (`get_table_meta`) when no earlier table bears the same name -/
+theorem table_lookup_exact (before after : List TableEntry) (t : TableEntry)
+    (huniq : ∀ x ∈ before, x.name ≠ t.name) :
+    getTableMeta (before ++ t :: after) t.name = .ok t ∧
+    tableNames (before ++ t :: after) = before.map (·.name) ++ t.name :: after.map (·.name) := by
+  constructor
+  · unfold getTableMeta
+    rw [List.find?_append]
+    have : before.find? (fun x => decide (x.name = t.name)) = none := by
+      rw [List.find?_eq_none]; intro x hx; simpa using huniq x hx
+    rw [this]
+    simp
+  · simp [tableNames]
+
+/-- a table declaration meeting `TableDecl.Ok`: prefix-less, `id`/`name` attributes before `displayName`,
+    an `autoFilter` child with its own `ref`, no header row, one totals row, two columns -/
+def exTable : TableDecl :=
+  { name := [84], rect := ⟨1, 1, 4, 2⟩, hdr := some 0, tot := some 1, cols := [[97], [82, 38, 68]],
+    extra := [(['i', 'd'], [49]), (nName, [84])], colExtra := [(['i', 'd'], [49])],
+    inner := [.start ['a', 'u', 't', 'o', 'F', 'i', 'l', 't', 'e', 'r'] [(nRef, [66, 50, 58, 67, 52])],
+              .end_ ['a', 'u', 't', 'o', 'F', 'i', 'l', 't', 'e', 'r']],
+    tail := [.text [10]] }
+
+theorem exTable_ok : exTable.Ok := by
+  refine ⟨by decide, by decide, by decide, by decide, ?_, ?_, ?_, ?_, ?_⟩
+  · intro e he
+    simp only [exTable, List.mem_cons, List.not_mem_nil, or_false] at he
+    rcases he with rfl | rfl
+    · exact ⟨by decide, by decide⟩
+    · show localName _ ≠ nTable; decide
+  · intro e he; simp [exTable] at he
+  · intro e he
+    simp only [exTable, List.mem_cons, List.not_mem_nil, or_false] at he
+    subst he; trivial
+  · intro h hh; simp only [exTable, Option.some.injEq] at hh; omega
+  · intro n hn; simp only [exTable, Option.some.injEq] at hn; subst hn; exact ⟨by omega, by decide⟩
+
+/-- a sheet `x/w/s` whose relationship part lists a hyperlink and a table relationship `../t`, with the
+    archive holding both parts: the hypotheses of `table_metadata_exact` are satisfiable -/
+example : ∃ parts, (⟨[83], [120], [119], [115],
+    some ([], [⟨[104], [46, 46, 47, 116], [], false⟩, ⟨tableRelType, [46, 46, 47, 116], [(nId, [114])], true⟩]),
+    [([120, 47, 116], exTable)]⟩ : SheetTablesDecl).Ok parts := by
+  refine ⟨[([120, 47, 87, 47, 95, 114, 101, 108, 115, 47, 115, 46, 114, 101, 108, 115],
+      renderSheetRels [] [⟨[104], [46, 46, 47, 116], [], false⟩, ⟨tableRelType, [46, 46, 47, 116], [(nId, [114])], true⟩]),
+    ([120, 47, 116], renderTablePart exTable)], by decide, by decide, ?_, ?_⟩
+  · refine ⟨by decide, ?_, by decide⟩
+    intro r hr
+    simp only [List.mem_cons, List.not_mem_nil, or_false] at hr
+    rcases hr with rfl | rfl
+    · intro a ha; simp at ha
+    · intro a ha
+      simp only [List.mem_cons, List.not_mem_nil, or_false] at ha
+      subst ha; exact ⟨by decide, by decide⟩
+  · intro p hp
+    simp only [List.mem_cons, List.not_mem_nil, or_false] at hp
+    subst hp
+    exact ⟨by decide, exTable_ok⟩
+
 /-- the ledger's D17 input: `ref="B2:C5"`, no header row, one totals row: the data are rows 2–4 -/
 example (m : Mode) : tableDims m (renderRef ⟨1, 1, 4, 2⟩) 0 1 false = .ok ⟨1, 1, 3, 2⟩ :=
   (table_geometry m ⟨1, 1, 4, 2⟩ (by decide) 0 1 (by decide) (by decide) (by decide)).1
